@@ -639,13 +639,19 @@ class DateTimeInitOracle(Oracle):
         for n in (1, 2, 3, 4) if ctx.thorough else (1, 2, 3):
             for c in itertools.product(self.PIECES, repeat=n): yield "".join(c)
     def check(self, rule):
-        from cutplace import data, fields
-        f = fields.DateTimeFieldFormat("d", False, "", rule, data.DataFormat(data.FORMAT_DELIMITED))
+        from cutplace import data, fields, errors
         exp = rule
         for a, b in (("%", "%%"), ("DD", "%d"), ("MM", "%m"), ("YYYY", "%Y"), ("YY", "%y"), ("hh", "%H"), ("mm", "%M"), ("ss", "%S")): exp = exp.replace(a, b)
+        twice = any(exp.count(d) > 1 for d in ("%d", "%m", "%y", "%Y", "%H", "%M", "%S"))      # a layout naming the same part twice is no layout time.strptime can read
+        try: f = fields.DateTimeFieldFormat("d", False, "", rule, data.DataFormat(data.FORMAT_DELIMITED))
+        except errors.InterfaceError:
+            return None if twice else {"expected": "rule accepted", "observed": "InterfaceError"}
+        if twice: return {"expected": "InterfaceError (a placeholder occurs twice)", "observed": "accepted"}
         ht = any(d in exp for d in ("%H", "%M", "%S")); hd = any(d in exp for d in ("%d", "%m", "%y", "%Y"))
         got = (f.strptime_format, f._has_time, f._has_date)
         if got != (exp, ht, hd): return {"expected": repr((exp, ht, hd)), "observed": repr(got)}
+        try: f.validated_value("x")        # an accepted rule can be used: a value is accepted or rejected, nothing else
+        except errors.FieldValueError: pass
     def describe(self, rule): return {"DateTime rule": rule}
 
 
@@ -668,16 +674,31 @@ def unit_datetime_init():
     def c_format(ex, st):
         o = st.heap[st.ghost["this"].oid]
         return Sym(BOOL, z3.And(lift(o["strptime_format"]).z == expected(ex, st), z3.BoolVal(o["human_readable_format"] is st.ghost["rule"])))
+    DIRECTIVES = ("%d", "%m", "%y", "%Y", "%H", "%M", "%S")
+    TW = z3.Function("occurs_more_than_once", z3.StringSort(), z3.StringSort(), z3.BoolSort())
+    def twice(f, d):        # spec predicate 'directive d occurs more than once in f' = what str.count(d) > 1 decides (kept uninterpreted: the replace chain is hard enough for the string solvers; the native twin evaluates it)
+        return TW(f, z3.StringVal(d))
+    def m_count(ex, st, recv, args, kw):
+        if not (isinstance(args[0], str) and len(args[0]) == 2 and args[0][0] != args[0][1]): raise Unsupported("str.count of something else than a two-character directive")
+        n = fresh(INT, "count")[0]; st.pc.append(n.z >= 0); st.pc.append((n.z > 1) == twice(lift(recv).z, args[0]))
+        yield st, n
+    def c_once(ex, st):
+        f = expected(ex, st)
+        return Sym(BOOL, z3.Not(z3.Or(*[twice(f, d) for d in DIRECTIVES])))
+    def c_twice(ex, st):
+        f = expected(ex, st)
+        return Sym(BOOL, z3.Or(*[twice(f, d) for d in DIRECTIVES]))
     def c_flags(ex, st):
         o = st.heap[st.ghost["this"].oid]; f = lift(o["strptime_format"]).z
         return Sym(BOOL, z3.And(lift(o["_has_time"]).z == z3.Or(*[z3.Contains(f, d) for d in ("%H", "%M", "%S")]), lift(o["_has_date"]).z == z3.Or(*[z3.Contains(f, d) for d in ("%d", "%m", "%y", "%Y")])))
     def make(ctx):
         c = Contract("fields.DateTimeFieldFormat.__init__", setup,
                 returns=[Clause(c_format, "strptime-format-is-the-rule-with-%-doubled-then-DD-MM-YYYY-YY-hh-mm-ss-replaced-by-their-directives-in-that-order", props=["C02"]),
-                         Clause(c_flags, "has-time-/-has-date-iff-the-format-contains-a-time-/-date-directive", props=["C02", "C16"]), _c_empty_value(None)],
-                raises={}, expect=["return"], raises_only_props=["C02", "C10"])
-        return {"contract": c, "callees": {"class:Range": m_range, "strmethod:replace": m_replace},
-                "assumptions": ["A-STR: str.replace(a, b) with non-empty a is SMT-LIB str.replace_all(s, a, b)", "the super().__init__ call is executed as real code with Range(length) abstracted (verified in contracts/ranges_init.py)"]}
+                         Clause(c_flags, "has-time-/-has-date-iff-the-format-contains-a-time-/-date-directive", props=["C02", "C16"]),
+                         Clause(c_once, "accepted-layouts-name-every-part-at-most-once-(time.strptime-can-read-them)", props=["C02", "C09", "C10"]), _c_empty_value(None)],
+                raises={"InterfaceError": [Clause(c_twice, "refused-only-when-a-placeholder-occurs-twice", props=["C02", "C09"])]}, expect=["return", "InterfaceError"], raises_only_props=["C02", "C10"])
+        return {"contract": c, "callees": {"class:Range": m_range, "strmethod:replace": m_replace, "strmethod:count": m_count},
+                "assumptions": ["A-STR: str.replace(a, b) with non-empty a is SMT-LIB str.replace_all(s, a, b); str.count(d) > 1 is the uninterpreted spec predicate occurs_more_than_once(format, d) (evaluated natively by the oracle over all rules of up to 3 pieces)", "the super().__init__ call is executed as real code with Range(length) abstracted (verified in contracts/ranges_init.py)"]}
     return ProofUnit("fields.DateTimeFieldFormat.__init__", "DateTimeFieldFormat.__init__: human readable layout -> strptime format (ordered replacement chain), has_time / has_date flags", ["C02", "C16", "C10"], make, DateTimeInitOracle)
 
 
